@@ -122,6 +122,17 @@ example (c : Chan) (msgs : List (Command × Bytes)) : Spec.sub c (Spec.streamOf 
 example (c d : Chan) (p q : Bytes) : Spec.IsMerge [(c, [p]), (d, [q])] [q, p] :=
   .step [(c, [p])] d q [] [] [p] (.step [] c p [] [(d, [])] [] (.done _ (by simp)))
 
+/-- **A stray continuation after a delivered multi-packet message yields nothing**: once the packets of a message of
+more than 57 bytes have been fed — to a receiver in any state — nothing is in progress on its channel, so a continuation
+packet with any sequence number (in particular the one that would have come next) is answered with nothing and leaves
+the receiver as it was.  (After a single-packet message the receiver's state for the channel is what it was before, so
+an earlier unfinished transfer is still in progress there: see DESIGN §9.3, observed behaviour.) -/
+theorem C16_stray_after_delivery (b0 b1 b2 b3 : UInt8) (cmd : Command) (data : Bytes) (hd : data.length ≤ 7608)
+    (hm : 57 < data.length) (t : Table) (s : UInt8) (rest : Bytes) (hs : s &&& 0x80 ≠ 0x80) :
+    handlePacket (feed t (Spec.packets ⟨b0, b1, b2, b3⟩ cmd data)).1 (b0 :: b1 :: b2 :: b3 :: s :: rest)
+      = ((feed t (Spec.packets ⟨b0, b1, b2, b3⟩ cmd data)).1, none) :=
+  C16_orphan_continuation _ b0 b1 b2 b3 s rest hs ((feed_packets ⟨b0, b1, b2, b3⟩ cmd data hd t).2.2 hm)
+
 /-- **the framing constants of the model are those of the source as it is now** (regenerated on every run): packet
 size, header sizes, packet-type bit, the continuation-packet limit of `Message::new`, the command bytes; and the
 receiver's byte table knows exactly the commands the sender can frame -/
